@@ -1,0 +1,109 @@
+//go:build verif
+
+package main
+
+import (
+	"fmt"
+	"mltwist/internal/state/interval"
+	"mltwist/internal/state/memory"
+	"mltwist/pkg/expr"
+	"mltwist/pkg/model"
+	"strings"
+)
+
+// sparse <n> op1 ... opn: one history of operations on a fresh memory.Sparse.
+//
+//	st <addr> <w> E     Store(addr, E, w)        answer "-"
+//	ld <addr> <w>       Load(addr, w)            answer "some E" / "none"
+//	ms <addr> <w>       Missing(addr, w)         answer interval list
+//	bl                  Blocks()                 answer interval list
+//
+// The answers are joined by " | ". A panicking operation answers "PANIC" and
+// ends the history. Otherwise the last field is the aliasing monitor: every
+// expression handed to or returned by the memory is printed when it is first
+// seen and printed again at the end of the history; "alias:ok" if all the
+// prints are unchanged, "alias:changed <k>" (k = index of the first changed
+// value) otherwise.
+
+type aliasRecord struct {
+	ex    expr.Expr
+	print string
+}
+
+func fmtSparseIntervals(m interval.Map[model.Addr]) string {
+	var sb strings.Builder
+	fmt.Fprintf(&sb, "%d", m.Len())
+	for _, i := range m.Intervals() {
+		fmt.Fprintf(&sb, " %d %d", uint64(i.Begin()), uint64(i.End()))
+	}
+	return sb.String()
+}
+
+func sparseOp(m *memory.Sparse, t *tokens, seen *[]aliasRecord) (res string) {
+	defer func() {
+		if r := recover(); r != nil {
+			if pe, ok := r.(parseError); ok {
+				panic(pe)
+			}
+			res = "PANIC"
+		}
+	}()
+
+	remember := func(ex expr.Expr) {
+		*seen = append(*seen, aliasRecord{ex: ex, print: fmtExpr(ex)})
+	}
+
+	switch op := t.next(); op {
+	case "st":
+		addr := model.Addr(t.uint())
+		w := t.width()
+		ex := t.expr()
+		remember(ex)
+		m.Store(addr, ex, w)
+		return "-"
+	case "ld":
+		addr := model.Addr(t.uint())
+		w := t.width()
+		ex, ok := m.Load(addr, w)
+		if !ok {
+			return "none"
+		}
+		remember(ex)
+		return "some " + fmtExpr(ex)
+	case "ms":
+		addr := model.Addr(t.uint())
+		w := t.width()
+		return fmtSparseIntervals(m.Missing(addr, w))
+	case "bl":
+		return fmtSparseIntervals(m.Blocks())
+	default:
+		panic(parseError("bad sparse op " + op))
+	}
+}
+
+func init() {
+	register("sparse", func(t *tokens) string {
+		n := t.int()
+		m := memory.NewSparse()
+		var seen []aliasRecord
+		answers := make([]string, 0, n+1)
+		for i := 0; i < n; i++ {
+			a := sparseOp(m, t, &seen)
+			answers = append(answers, a)
+			if a == "PANIC" {
+				t.rest()
+				return strings.Join(answers, " | ")
+			}
+		}
+
+		alias := "alias:ok"
+		for k, r := range seen {
+			if fmtExpr(r.ex) != r.print {
+				alias = fmt.Sprintf("alias:changed %d", k)
+				break
+			}
+		}
+		answers = append(answers, alias)
+		return strings.Join(answers, " | ")
+	})
+}
